@@ -64,7 +64,7 @@ def generate(tier, seed):
     n_rand = 2000 if tier == "quick" else 40000
     for _ in range(n_rand):
         n = rnd.randint(1, 5)
-        p = [rnd.choice(LITS + ["ab", "a-b", "A_1"] + [":" + x for x in NAMES + ["id", "x"]]) for _ in range(n)]
+        p = [rnd.choice(LITS + ["ab", "a-b", "A_1"] + [":" + x for x in NAMES + ["id", "x", "user-id", "1st", "a_b", "x"]]) for _ in range(n)]
         if rnd.random() < 0.3:
             p.append("*")
         # a key derived from the pattern (mostly matching) with mutations
@@ -95,7 +95,7 @@ def generate(tier, seed):
         "rule": ("every grammar pattern of <= %d segments over literals {a,b}, names {x,y} and a final '*' x every key of <= %d segments over "
                  "{a,b,ab,é,''} plus keys with query strings, line feeds, missing leading slash, for key_match2/3/4/5 and key_get2/3; "
                  "key_match/key_get on text patterns with '*' anywhere incl. multi-byte keys; regex_match on word alternatives; "
-                 "%d seeded random longer patterns with mostly-matching keys. non-trivial = the function returns a match / a non-empty binding"
+                 "%d seeded random longer patterns (names with '-', '_', a leading digit, repeated names) with mostly-matching keys. non-trivial = the function returns a match / a non-empty binding"
                  % (pl, kl, n_rand)),
         "distribution": dist,
     }
